@@ -53,6 +53,9 @@ THEOREMS = [
     dict(name="monitored:tsol_agree", strength="monitored", clause="solidification times agree to O(dt)"),
     dict(name="monitored:thin_limit", strength="monitored",
          clause="1D approaches 0D as the vial becomes thermally thin: |T[0]-mean| <= Bi*|T_sh-mean| and cooling curve"),
+    dict(name="Snow.C15.yDef_is_generated_default", strength="witness",
+         clause="Snowflake's derived default constants equal those of the GENERATED calculateDerived on the GENERATED "
+                "default YAML tree (exact over Q)"),
     dict(name="Snow.C15.nuc0D_eq_direct_hyps", strength="witness",
          clause="the constant relations assumed by nuc0D_eq_direct hold between Flake.deriveConsts(default) and the default SnowIn"),
     dict(name="Snow.C15.nonvacuous", strength="nonvacuity", clause="hypotheses satisfiable on concrete cases"),
